@@ -5,7 +5,6 @@ import (
 	stdjson "encoding/json"
 	"fmt"
 	"io"
-	"math"
 	"testing"
 
 	"github.com/ipld/go-ipld-prime/codec/dagjson"
@@ -97,33 +96,14 @@ func jsonKeysAscending(text []byte) error {
 	}
 }
 
-func integralFloat(x val.V) bool {
-	return x.K == val.Float && x.F == math.Trunc(x.F) && math.Abs(x.F) < 1e21
-}
-
 func c04Check(c C04Case, rec *evid.Rec) error {
 	v := c.V
-	if known.Active("C04-integral-float") && v.Has(integralFloat) {
-		// steer around the listed finding: integral-valued floats lose their kind
-		v = v.Clone()
-		var fix func(x *val.V)
-		fix = func(x *val.V) {
-			if integralFloat(*x) {
-				if math.Abs(x.F) < 1e15 {
-					x.F += 0.5
-				} else {
-					x.F *= 1e10 // beyond 1e21 the encoder uses exponent notation, which keeps the kind
-				}
-			}
-			for i := range x.Items {
-				fix(&x.Items[i])
-			}
-			for i := range x.Ents {
-				fix(&x.Ents[i].V)
-			}
+	if known.Active("C04-integral-float") {
+		// steer around the listed finding: integral-valued floats lose their kind (or fail to decode)
+		if w, changed := val.ShiftIntegralFloats(v); changed {
+			v = w
+			rec.Excluded("C04-integral-float")
 		}
-		fix(&v)
-		rec.Excluded("C04-integral-float")
 	}
 	permuted := val.Permute(v, c.Perm)
 	impl := nodes.Impl(c.Impl)
